@@ -662,7 +662,11 @@ def _sample_chains_worker(
             if isinstance(exception, AdaptationError):
                 iter_queue.put(None)
             else:
-                chain_outputs.append((chain_index, outputs))
+                # Also return state of chain random number generator so that parent
+                # process can continue stream where worker left off in later stages
+                chain_outputs.append(
+                    (chain_index, outputs, chain_kwargs["rng"].bit_generator.state),
+                )
             # If returned handled exception was a manual interrupt put exception
             # on iteration queue to communicate to parent process and break
             if isinstance(exception, KeyboardInterrupt):
@@ -713,9 +717,11 @@ def _sample_chains_parallel(
             # Shared queue for workers to get arguments for _sample_chain calls
             # from on initialising each chain
             chain_queue = manager.Queue()
+            chain_rngs = []
             for c, (chain_kwargs, n_iter) in enumerate(
                 zip(per_chain_kwargs, n_iters, strict=True),
             ):
+                chain_rngs.append(chain_kwargs["rng"])
                 # Map memmaps to their filepaths prior to putting on argument queue to
                 # avoid serializing potentially large memory mapped arrays
                 chain_kwargs["chain_stats"] = _memmaps_to_file_paths(
@@ -792,9 +798,16 @@ def _sample_chains_parallel(
         if results is not None:
             # Join all output lists from per-process workers in to single list
             indexed_chain_outputs = [r for res in results.get() for r in res]
+            # Advance the parent process copies of the per-chain random number
+            # generators to the states reached in the worker processes
+            for chain_index, _, rng_state in indexed_chain_outputs:
+                chain_rngs[chain_index].bit_generator.state = rng_state
             # Sort list by chain index (first element of tuple entries) and
             # then create new list with chain index removed
-            chain_outputs = [outp for i, outp in sorted(indexed_chain_outputs)]
+            chain_outputs = [
+                outp
+                for _, outp, _ in sorted(indexed_chain_outputs, key=lambda r: r[0])
+            ]
         else:
             chain_outputs = []
     return (*_collate_chain_outputs(chain_outputs), exception)
